@@ -804,11 +804,11 @@ class ScenarioRunnerNoTrade(ScenarioRunner):
         assert all(
             country_data[f"stocks_kcals_{months[i]}"] < 10e9 for i in range(0, 12)
         ), f"{country}: stocks kcals is greater than 10 billion"
-        for i in range(1, 11):
+        for i in range(0, 12):
             if country_data[f"stocks_kcals_{months[i]}"] < 0:
-                print(country_data[f"stocks_kcals_{months[i]}"])
                 if abs(country_data[f"stocks_kcals_{months[i]}"]) < 1e-8:
-                    country_data[f"crop_reduction_year{i}"] = 0
+                    # a rounding error below zero is an empty stock
+                    country_data[f"stocks_kcals_{months[i]}"] = 0
                 else:
                     assert False, "ERROR: stocks is negative"
 
